@@ -14,6 +14,9 @@ pub struct FsState {
     pub write_fail_at: BTreeMap<usize, (u64, ErrorKind)>,
     /// The n-th opened file fails reads once this many bytes were read from it.
     pub read_fail_at: BTreeMap<usize, (u64, ErrorKind)>,
+    /// Another process truncates the file while it is being read: once this many bytes of
+    /// the idx-th opened file have been read, the real file is cut to the given length.
+    pub shrink_after: BTreeMap<usize, (u64, u64)>,
     /// Closing the n-th created file fails.
     pub close_fail: BTreeMap<usize, ErrorKind>,
     pub short_io: bool,
